@@ -36,7 +36,13 @@ func (d *DeterministicSampler) Start() error {
 	// Get the actual upper bound - the largest possible value divided by
 	// the sample rate. In the case where the sample rate is 1, this should
 	// sample every value.
-	d.upperBound = math.MaxUint32 / uint32(d.sampleRate)
+	if d.sampleRate > math.MaxUint32 {
+		// a rate beyond the 32-bit hash space keeps (almost) nothing; it must
+		// not be truncated to a smaller rate or to a zero divisor
+		d.upperBound = 0
+	} else {
+		d.upperBound = math.MaxUint32 / uint32(d.sampleRate)
+	}
 
 	return nil
 }
